@@ -310,6 +310,9 @@ func checkErrChain(c ErrChainCase, cv *cov) (v *evid.Violation) {
 					thrift.NewProtocolException(n.typeID, n.msg), thrift.NewApplicationException(n.typeID, n.msg), thrift.NewTransportException(n.typeID, n.msg),
 					&foreignErr{n.typeID, n.msg}, &foreignErr{n.typeID + 1, n.msg}, &foreignErr{n.typeID, n.msg + "x"},
 					thrift.NewProtocolException(n.typeID+1, n.msg), thrift.NewApplicationException(n.typeID, n.msg+" "), errors.New(n.msg),
+					// errors that are not exceptions themselves but wrap a look-alike: the exception rule applies to the
+					// target itself, not to what it wraps
+					fmt.Errorf("wrapped: %w", &foreignErr{n.typeID, n.msg}), fmt.Errorf("%w", thrift.NewApplicationException(n.typeID, n.msg)), multiErr{&foreignErr{n.typeID, n.msg}},
 					// exceptions without a message: their text is the default text for the type id
 					thrift.NewApplicationException(n.typeID, ""), thrift.NewTransportException(n.typeID, ""), thrift.NewProtocolException(n.typeID, ""))
 			}
